@@ -385,3 +385,60 @@ Theorem grid_set_length i e l : length (grid_set i e l) = Nat.max (S i) (length 
 Proof.
   unfold grid_set. rewrite app_length, firstn_length, app_length, repeat_elem_length. cbn [length]. rewrite skipn_length. lia.
 Qed.
+
+(* ---- UserDefined(from_document=doc): the field shows the value of the metadata entry *)
+Lemma set_et_full_own_type v : v <> VNone -> v <> VOther -> set_et_full (default_type v) None None v = set_et_full None None None v.
+Proof. destruct v; intros H1 H2; try congruence; reflexivity. Qed.
+Theorem from_document_lemma v me : in_domain_for SetMeta v = true -> model_set SetMeta v = Ok me ->
+  exists e r, set_ud_from_doc (Some me) None VNone = Ok e /\ get_et e = Ok r /\ same_value v r = true.
+Proof.
+  intros Hd Hs. destruct (roundtrip_lemma SetMeta GetMeta v eq_refl Hd) as (me' & r1 & Hs' & Hg & S1).
+  rewrite Hs in Hs'. injection Hs' as <-. unfold set_ud_from_doc. change (get_meta me) with (model_get GetMeta me). rewrite Hg.
+  unfold in_domain_for in Hd. apply andb_true_iff in Hd as [Hd Hm].
+  (* the value Meta reads, r1, is again in the domain, of the type the entry declares, and equal to v *)
+  assert (Hkey : in_domain r1 = true /\ r1 <> VNone /\ r1 <> VOther /\ vtype me = default_type r1 /\
+                 (forall r, same_value r1 r = true -> same_value v r = true)).
+  { destruct v; try discriminate.
+    - (* bool *) destruct b; cbn in Hs; injection Hs as <-; cbn in Hg; injection Hg as <-; repeat split; try discriminate; auto.
+    - (* int *) destruct (num_text (VInt z) eq_refl Hd) as (d & Hnv & Ht).
+      assert (Hw : model_set SetMeta (VInt z) = Ok (wr SetMeta t_float SValue (py_str_num (VInt z)))) by reflexivity. rewrite Hw in Hs. assert (Hme : me = wr SetMeta t_float SValue (py_str_num (VInt z))) by congruence. subst me.
+      rewrite (get_float SetMeta GetMeta) in Hg by (reflexivity || now apply (dec_of_text_not_tf _ _ Ht)).
+      unfold read_number in Hg. rewrite Ht in Hg. cbn in Hg. injection Hg as <-. repeat split; try discriminate; try reflexivity.
+      intros r Hr. cbn [same_value num_of] in *. cbn [num_of] in Hnv. injection Hnv as <-. exact Hr.
+    - (* float *) destruct (num_text (VFloat r) eq_refl Hd) as (d & Hnv & Ht).
+      assert (Hw : model_set SetMeta (VFloat r) = Ok (wr SetMeta t_float SValue (py_str_num (VFloat r)))) by reflexivity. rewrite Hw in Hs. assert (Hme : me = wr SetMeta t_float SValue (py_str_num (VFloat r))) by congruence. subst me.
+      rewrite (get_float SetMeta GetMeta) in Hg by (reflexivity || now apply (dec_of_text_not_tf _ _ Ht)).
+      unfold read_number in Hg. rewrite Ht in Hg. cbn in Hg. injection Hg as <-. repeat split; try discriminate; try reflexivity.
+      intros x Hx. cbn [same_value num_of] in *. cbn [num_of py_str_num] in Hnv, Ht. rewrite Hnv. exact Hx.
+    - (* Decimal *) destruct (num_text (VDec d) eq_refl Hd) as (d' & Hnv & Ht).
+      assert (Hw : model_set SetMeta (VDec d) = Ok (wr SetMeta t_float SValue (py_str_num (VDec d)))) by reflexivity. rewrite Hw in Hs. assert (Hme : me = wr SetMeta t_float SValue (py_str_num (VDec d))) by congruence. subst me.
+      rewrite (get_float SetMeta GetMeta) in Hg by (reflexivity || now apply (dec_of_text_not_tf _ _ Ht)).
+      unfold read_number in Hg. rewrite Ht in Hg. cbn in Hg. injection Hg as <-. cbn [num_of] in Hnv. injection Hnv as <-.
+      repeat split; try discriminate; try reflexivity. auto.
+    - (* str *) cbn [in_domain] in Hd.
+      assert (Hw : model_set SetMeta (VStr s) = Ok (wr SetMeta t_string SString s)).
+      { unfold model_set, set_meta, set_meta_gen. cbn [isinstance_bool isinstance_int isinstance_float isinstance_Decimal isinstance_datetime isinstance_date isinstance_str orb].
+        rewrite Hd. reflexivity. }
+      rewrite Hw in Hs. assert (Hme : me = wr SetMeta t_string SString s) by congruence. subst me.
+      rewrite (get_string SetMeta GetMeta) in Hg by reflexivity. injection Hg as <-. repeat split; try discriminate; auto.
+    - (* date *) cbn [in_domain] in Hd. destruct (read_date_of_date y m d Hd) as (Hr & Hnt).
+      assert (Hw : model_set SetMeta (VDate y m d) = Ok (wr SetMeta t_date SDate (date_encode y m d))) by reflexivity. rewrite Hw in Hs. assert (Hme : me = wr SetMeta t_date SDate (date_encode y m d)) by congruence. subst me.
+      rewrite (get_date SetMeta GetMeta) in Hg by (reflexivity || exact Hnt). rewrite Hr in Hg. injection Hg as <-.
+      repeat split; try discriminate; try reflexivity.
+      + cbn [in_domain]. unfold valid_dt. cbn [yr mo dy hh mi ss us tz]. rewrite Hd. reflexivity.
+      + intros r Hr'. destruct r; try discriminate. cbn [same_value] in *. exact Hr'.
+    - (* datetime *) cbn [in_domain] in Hd. destruct (read_date_of_datetime d Hd) as (Hr & Hnt).
+      assert (Hw : model_set SetMeta (VDateTime d) = Ok (wr SetMeta t_date SDate (datetime_encode d))) by reflexivity. rewrite Hw in Hs. assert (Hme : me = wr SetMeta t_date SDate (datetime_encode d)) by congruence. subst me.
+      rewrite (get_date SetMeta GetMeta) in Hg by (reflexivity || exact Hnt). rewrite Hr in Hg. injection Hg as <-.
+      repeat split; try discriminate; auto.
+    - (* timedelta *) destruct (read_dur_of_dur us) as (Hr & Hnt).
+      assert (Hw : model_set SetMeta (VDur us) = Ok (wr SetMeta t_time STime (dur_encode us))) by reflexivity. rewrite Hw in Hs. assert (Hme : me = wr SetMeta t_time STime (dur_encode us)) by congruence. subst me.
+      rewrite (get_time SetMeta GetMeta) in Hg by (reflexivity || exact Hnt). rewrite Hr in Hg. injection Hg as <-.
+      repeat split; try discriminate; auto. }
+  destruct Hkey as (Hd1 & Hn1 & Ho1 & Hvt & Htrans).
+  rewrite Hvt. assert (Hdt : exists t, default_type r1 = Some t) by (destruct r1; try congruence; eexists; reflexivity).
+  destruct Hdt as [t Ht]. rewrite Ht. rewrite <- Ht, set_et_full_own_type by assumption. rewrite set_et_full_default.
+  destruct (roundtrip_lemma SetET GetET r1 eq_refl) as (e & r & Hse & Hge & S2).
+  { unfold in_domain_for. rewrite Hd1. destruct r1; reflexivity. }
+  exists e, r. split; [exact Hse|]. split; [exact Hge|]. now apply Htrans.
+Qed.
